@@ -72,6 +72,9 @@ def _norm_dtype(datatype, fmt):
             raise ValueError("Variable length strings are only supported for the NETCDF4 format")
         return str
     dt = np.dtype(datatype)
+    # netCDF4-python: a numpy string dtype of length > 1 and any numpy unicode dtype mean str (variable-length strings)
+    if (dt.kind == 'S' and dt.itemsize > 1) or dt.kind == 'U':
+        return _norm_dtype(str, fmt)
     if dt.kind in 'OUS' and dt != np.dtype('S1'):
         raise TypeError("illegal primitive data type, must be one of the numeric types or str, got %s" % dt)
     if dt.kind == 'b': raise TypeError("illegal primitive data type, got bool")
@@ -143,6 +146,7 @@ class Variable(_Attrs):
         for ax, i in enumerate(idx):
             dim = self._ds.dimensions[self.dimensions[ax]]
             n = len(dim)
+            if isinstance(i, list) and len(i) == 1 and isinstance(i[0], slice): i = i[0]     # dimarray passes [slice(None)] (np.ndim(slice) == 0)
             if isinstance(i, (bool, np.bool_)): raise IndexError('boolean scalar index')
             if isinstance(i, (int, np.integer)):
                 i = int(i)
@@ -175,7 +179,7 @@ class Variable(_Attrs):
             kind, v = e[ax]
             r = np.take(r, v, axis=ax) if kind == 'list' else np.take(r, v, axis=ax)
         r = np.array(r, copy=True)
-        if self._dt is not str and np.isscalar(r): r = np.asarray(r)
+        if self._dt is str and r.ndim == 0: return r[()]        # a single variable-length string comes back as a str
         return r
     def __setitem__(self, idx, values):
         if self._ds._mode == 'r': raise RuntimeError('NetCDF: Write to read only')
